@@ -303,6 +303,7 @@ def check(ctx):
     _reader_ends(ctx)
     _reaper_records(ctx)
     _queue_unbounded(ctx)
+    _strip_patterns_bounded(ctx)
 
 
 def _reaper_records(ctx):
@@ -453,6 +454,63 @@ def _reader_ends(ctx):
     if n < 3:
         raise AnalysisError(f"{PL}: only {n} call sites of {sorted(closers)} found")
 
+
+
+def _strip_patterns_bounded(ctx):
+    """R4 allows one content-removing shaping: escape sequences.  A pattern that strips them must not be able to run
+    across visible text: an unbounded *greedy* repeat over 'any character' (`.*`) between an introducer and a terminator
+    swallows everything up to the last terminator on the line - the text between two hyperlinks, two titles ..."""
+    import re._parser as sre
+    from ..engine.fold import Folder, NotConstant
+
+    plm = ctx.repo.module(PL)
+    f = Folder(plm)
+    n = 0
+    for name in [q for q, fn in plm.functions() if q.startswith("RE_") and any("lazyobject" in unparse(d) for d in fn.decorator_list)]:
+        fn = plm.get(name)
+        comps = [c for c in calls_in(fn) if call_name(c) == "re.compile" and c.args]
+        for c in comps:
+            try:
+                env = {}
+                for stt in fn.body:
+                    if isinstance(stt, ast.Assign) and isinstance(stt.targets[0], ast.Name):
+                        env[stt.targets[0].id] = f.fold(stt.value, dict(env))
+                pat = f.fold(c.args[0], dict(env))
+            except (NotConstant, AnalysisError):
+                continue
+            if isinstance(pat, bytes):
+                pat = pat.decode("latin-1")
+            if not isinstance(pat, str):
+                continue
+            n += 1
+            greedy_any = []
+
+            def walk(items):
+                for op, av in items:
+                    o = str(op)
+                    if o in ("MAX_REPEAT", "POSSESSIVE_REPEAT"):
+                        lo, hi, sub = av
+                        if str(hi) == "MAXREPEAT" and any(str(so) == "ANY" for so, _ in sub):
+                            greedy_any.append(o)
+                        walk(sub)
+                    elif o == "MIN_REPEAT":
+                        walk(av[2])
+                    elif o == "SUBPATTERN":
+                        walk(av[3])
+                    elif o == "BRANCH":
+                        for b_ in av[1]:
+                            walk(b_)
+                    elif o in ("ASSERT", "ASSERT_NOT"):
+                        walk(av[1])
+
+            try:
+                walk(sre.parse(pat, plm.folded.get("__flags__", 0) if hasattr(plm, "folded") and isinstance(getattr(plm, "folded"), dict) else 0))
+            except Exception as e_:
+                raise AnalysisError(f"{PL}:{name}: cannot parse the pattern: {e_}")
+            uses_dotall = any("DOTALL" in unparse(a) or unparse(a).endswith(".S") for a in c.args[1:])
+            ctx.ob("R4", f"{PL}:{name}", "the stripping / hiding pattern has no unbounded greedy repeat over 'any character' (it cannot run across visible text to a later terminator)", not greedy_any, key=f"{name}|greedy-any-in-strip-pattern", where=loc(c), detail=f"`.*`-like repeat in {pat[:60]!r}" + (" (DOTALL)" if uses_dotall else "") if greedy_any else None)
+    if n < 2:
+        raise AnalysisError(f"{PL}: stripping patterns not found ({n})")
 
 META = {
     "technique": "static analysis: typestate (no put after close), boolean-structure check of the EOF predicate, CFG dominance / must-pass-through for drain-after-wait and close-before-drain, operation whitelist on the shaping path",
